@@ -7423,6 +7423,45 @@ fn stream_yaml_single_quoted<Out: core::fmt::Write>(out: &mut Out, s: &str) -> c
     out.write_char('\'')
 }
 
+/// Verification hooks (feature `verif-hooks`): wrappers exposing the private
+/// YAML emitter decision functions to the external harness. Add-only.
+#[cfg(feature = "verif-hooks")]
+pub mod verif_emit_hooks {
+    use super::*;
+
+    pub fn needs_yaml_quoting(s: &str) -> bool {
+        super::needs_yaml_quoting(s)
+    }
+
+    pub fn looks_like_yaml_number(s: &str) -> bool {
+        super::looks_like_yaml_number(s)
+    }
+
+    pub fn double_quoted(s: &str) -> String {
+        let mut out = String::new();
+        let _ = super::stream_yaml_double_quoted(&mut out, s);
+        out
+    }
+
+    pub fn single_quoted(s: &str) -> String {
+        let mut out = String::new();
+        let _ = super::stream_yaml_single_quoted(&mut out, s);
+        out
+    }
+
+    pub fn block_scalar_quoted(s: &str) -> String {
+        let mut out = String::new();
+        let _ = super::stream_yaml_block_scalar_quoted(&mut out, s);
+        out
+    }
+
+    pub fn block_scalar(decoded: &str, indent: &str, explicit_indent: Option<u8>, folded: bool) -> String {
+        let mut out = String::new();
+        let _ = super::stream_yaml_block_scalar(&mut out, decoded, indent, explicit_indent, folded);
+        out
+    }
+}
+
 #[cfg(test)]
 mod tests {
     use super::*;
